@@ -4,6 +4,7 @@
 package concsrv
 
 import (
+	"os/exec"
 	"context"
 	"fmt"
 	"os"
@@ -61,6 +62,90 @@ type world struct {
 	snapOn  bool
 	viol    []vio
 	statePath string
+	mgr     []string // manager-call trace of the hold under observation (traceHold), one line per event
+	smgr    map[string][]string // per observed lock name (traceNames): header, then one line per event
+}
+
+// traceNames does the same for every hold of the given lock names (one hold per name in the C06
+// templates) plus the session manager's DestroySession, for the model M3b (driver linsess).
+// hdr[name] is the history header: "lease=<0|1> granted=<0|1>".
+func (w *world) traceNames(hdr map[string]string) {
+	w.smgr = map[string][]string{}
+	for n, h := range hdr {
+		w.smgr[n] = []string{"hist " + h}
+	}
+	mine := map[int][]string{}
+	w.ls.VerifTrace(func(e server.VerifMgrEvent) {
+		w.mu.Lock()
+		defer w.mu.Unlock()
+		if e.Phase == "inv" {
+			var to []string
+			for n := range hdr {
+				if e.Method == "sess.DestroySession" || e.Name == n && e.Method != "timer.Add" && !strings.HasPrefix(e.Method, "timer.") ||
+					strings.HasPrefix(e.Method, "timer.") && strings.HasPrefix(e.Key, server.VerifTimerKey(n, "")) {
+					to = append(to, n)
+				}
+			}
+			if len(to) == 0 {
+				return
+			}
+			mine[e.Id] = to
+			th := verifrt.Name()
+			if th == "" {
+				th = "anon"
+			}
+			for _, n := range to {
+				w.smgr[n] = append(w.smgr[n], fmt.Sprintf("inv %d %s %s", e.Id, th, e.Method))
+			}
+			return
+		}
+		ok, er := 0, 0
+		if e.Ok {
+			ok = 1
+		}
+		if e.Err != "" {
+			er = 1
+		}
+		for _, n := range mine[e.Id] {
+			w.smgr[n] = append(w.smgr[n], fmt.Sprintf("ret %d %d %d", e.Id, ok, er))
+		}
+	})
+}
+
+// traceHold starts reporting every call the lock server makes into its managers that concerns the
+// hold (name, key label) — the steps of the interleaving models — as lines
+// "inv <id> <thread> <method>" / "ret <id> <ok> <err?>".
+func (w *world) traceHold(name, label string) {
+	key := w.keys[label]
+	tk := server.VerifTimerKey(name, key)
+	mine := map[int]bool{}
+	w.ls.VerifTrace(func(e server.VerifMgrEvent) {
+		w.mu.Lock()
+		defer w.mu.Unlock()
+		if e.Phase == "inv" {
+			if !(e.Key == key && e.Name == name || e.Key == tk) {
+				return
+			}
+			mine[e.Id] = true
+			th := verifrt.Name()
+			if th == "" {
+				th = "anon"
+			}
+			w.mgr = append(w.mgr, fmt.Sprintf("inv %d %s %s", e.Id, th, e.Method))
+			return
+		}
+		if !mine[e.Id] {
+			return
+		}
+		ok, er := 0, 0
+		if e.Ok {
+			ok = 1
+		}
+		if e.Err != "" {
+			er = 1
+		}
+		w.mgr = append(w.mgr, fmt.Sprintf("ret %d %d %d", e.Id, ok, er))
+	})
 }
 
 type vio struct{ sig, what string }
@@ -329,6 +414,14 @@ func finish(w *world, extra func()) conc.Outcome {
 	}
 	det["violations"] = vs
 	det["acks"] = w.acks
+	det["mgrtrace"] = append([]string{}, w.mgr...)
+	if w.smgr != nil {
+		st := []string{}
+		for _, n := range common.SortedKeys(w.smgr) {
+			st = append(st, strings.Join(w.smgr[n], "\n"))
+		}
+		det["sesstrace"] = st
+	}
 	w.close()
 	return conc.Outcome{Key: key, Detail: det}
 }
@@ -500,6 +593,7 @@ func templates() []template {
 				Setup: func() any {
 					w := newWorld(t, cfgFile(), "s1", "s2")
 					w.mustTry("s1", "x", nil, p32(5), "h")
+					w.traceHold("x", "h")
 					return w
 				},
 				Threads: []conc.Thread{
@@ -518,6 +612,7 @@ func templates() []template {
 				Setup: func() any {
 					w := newWorld(t, cfgFile(), "s1", "s2")
 					w.mustTry("s1", "x", nil, p32(5), "h")
+					w.traceHold("x", "h")
 					return w
 				},
 				Threads: []conc.Thread{
@@ -536,6 +631,7 @@ func templates() []template {
 				Setup: func() any {
 					w := newWorld(t, cfgFile(), "s1", "s2")
 					w.mustTry("s1", "x", nil, p32(5), "h")
+					w.traceHold("x", "h")
 					return w
 				},
 				Threads: []conc.Thread{
@@ -555,6 +651,7 @@ func templates() []template {
 					w := newWorld(t, cfgFile(), "s1", "s2")
 					w.mustTry("s1", "x", nil, p32(60), "h1")
 					w.mustTry("s2", "z", nil, p32(60), "h2")
+					w.traceNames(map[string]string{"x": "lease=1 granted=1", "y": "lease=1 granted=0"})
 					return w
 				},
 				Threads: []conc.Thread{
@@ -574,6 +671,7 @@ func templates() []template {
 					w.mustTry("s1", "x", nil, p32(5), "h1")
 					w.mustTry("s1", "y", nil, nil, "h3")
 					w.mustTry("s2", "z", nil, p32(60), "h2")
+					w.traceNames(map[string]string{"x": "lease=1 granted=1", "y": "lease=0 granted=1"})
 					return w
 				},
 				Threads: []conc.Thread{
@@ -595,6 +693,7 @@ func templates() []template {
 					w.mustTry("s1", "y", nil, nil, "h3")
 					w.mustTry("s1", "v", nil, p32(60), "h4")
 					w.mustTry("s2", "z", nil, p32(60), "h2")
+					w.traceNames(map[string]string{"x": "lease=1 granted=1", "y": "lease=0 granted=1", "v": "lease=1 granted=1"})
 					return w
 				},
 				Threads: []conc.Thread{
@@ -1015,6 +1114,8 @@ func TestConc(t *testing.T) {
 		prog := tp.prog(t)
 		prog.Name = tp.name
 		outcomes := map[string]int{}
+		traces := map[string]func() map[string]any{}  // distinct manager-call traces -> replay of the first schedule that produced it
+		straces := map[string]func() map[string]any{} // the same per observed hold of an ending session (M3b)
 		bound := tp.bound
 		if common.Thorough() {
 			bound++
@@ -1025,6 +1126,19 @@ func TestConc(t *testing.T) {
 			rp := func() map[string]any {
 				return map[string]any{"template": tp.name, "schedule": conc.Compress(r.Trace), "trace": r.Trace, "outcome": r.Outcome.Key,
 					"panics": r.Panics, "blocked": r.Blocked, "calls": r.Outcome.Detail["calls"], "model_agrees": true}
+			}
+			if mt, ok := r.Outcome.Detail["mgrtrace"].([]string); ok && len(mt) > 0 && containsStr(tp.props, "C05") && prop == "C05" {
+				k := "hist\n" + strings.Join(mt, "\n")
+				if _, seen := traces[k]; !seen {
+					traces[k] = rp
+				}
+			}
+			if sts, ok := r.Outcome.Detail["sesstrace"].([]string); ok && prop == "C06" {
+				for _, k := range sts {
+					if _, seen := straces[k]; !seen {
+						straces[k] = rp
+					}
+				}
 			}
 			for _, p := range r.Panics {
 				res.Find(common.Finding{Kind: "violation", Property: prop, Signature: "conc:panic:" + panicClass(p), What: "a goroutine panicked: " + p, Replay: rp()})
@@ -1058,6 +1172,8 @@ func TestConc(t *testing.T) {
 		if exhausted {
 			res.Count("dfs-exhausted:" + tp.name)
 		}
+		validateTraces(t, res, prop, tp.name, traces, "linlease", "lease", "the lease model M3a")
+		validateTraces(t, res, prop, tp.name, straces, "linsess", "session-end", "the session-end model M3b")
 		res.CountN("distinct-outcomes:"+tp.name, len(outcomes))
 		ks := common.SortedKeys(outcomes)
 		if len(ks) > 0 {
@@ -1107,4 +1223,42 @@ func relevant(prop, sig string) bool {
 		return strings.HasPrefix(sig, "conc:gc") || strings.HasPrefix(sig, "conc:capacity")
 	}
 	return true
+}
+
+// validateTraces: every distinct manager-call trace of the observed hold must be a run of the
+// Lean model M3a (driver linlease: the calls, in some order that respects real time, are the model's
+// steps with the model's results). A rejected trace is a model/implementation disagreement.
+func validateTraces(t *testing.T, res *common.Result, prop, tpl string, traces map[string]func() map[string]any, mode, tag, model string) {
+	if len(traces) == 0 {
+		return
+	}
+	keys := common.SortedKeys(traces)
+	var in strings.Builder
+	for _, k := range keys {
+		in.WriteString(k + "\nend\n")
+	}
+	cmd := exec.Command(common.LeanDriver(), mode)
+	cmd.Stdin = strings.NewReader(in.String())
+	cmd.Stderr = os.Stderr
+	out, err := cmd.Output()
+	if err != nil {
+		t.Fatalf("lean driver %s: %v", mode, err)
+	}
+	lines := strings.Split(strings.TrimRight(string(out), "\n"), "\n")
+	if len(lines) != len(keys) {
+		t.Fatalf("lean driver %s: %d histories in, %d answers out", mode, len(keys), len(lines))
+	}
+	res.CountN(tag+"-traces-validated:"+tpl, len(keys))
+	for i, k := range keys {
+		if lines[i] == "ok" {
+			continue
+		}
+		rp := traces[k]()
+		rp["manager_calls"] = strings.Split(k, "\n")
+		rp["model"] = lines[i]
+		rp["model_agrees"] = false
+		res.Find(common.Finding{Kind: "disagreement", Property: prop, Signature: "conc:trace:" + tag + "-model@" + tpl,
+			What:   "the calls the server made into its managers for the observed hold are not a run of " + model + ": " + lines[i],
+			Replay: rp})
+	}
 }
